@@ -10,6 +10,7 @@ Local Open Scope Z_scope.
 (* ------------------------------------------------------------------ scenario / observation types *)
 Definition loc := (list N * N)%type.                       (* file name (C string, no NUL) and line *)
 Definition loc_eqb (a b : loc) : bool := bytes_eqb (fst a) (fst b) && N.eqb (snd a) (snd b).
+Definition unknown_loc : loc := ([60; 117; 110; 107; 110; 111; 119; 110; 62]%N, 0%N).     (* "<unknown>", 0 *)
 
 (* how the allocation reaches the allocator (the allocator family of the history) *)
 Inductive family := FDirect | FMalloc | FCalloc | FStrdup | FStrndup | FNew | FNewArr | FNewNT | FNewArrNT.
@@ -24,11 +25,21 @@ Inductive op :=
 Inductive ares := ROk | RNull | RBadAlloc | RCrash.
 Inductive report := RepG (n : Z) | RepL (l : loc)            (* what the "never done" failure names *)
                   | RepAnon.                                (* a failure whose text names nothing recognisable (never produced by the model) *)
-Inductive alloc_id := ADefault | ACustom | ANull.           (* which allocator is the current malloc allocator *)
+Inductive alloc_id := ADefault | ACustom | ANull             (* which allocator is the current malloc allocator; ANull = the one that *)
+                    | AFailable.                            (* stands in while out-of-memory is simulated; AFailable = a FailableMemoryAllocator *)
 Inductive oitem :=
 | OAlloc (r : ares)
 | OCheck (rep : option report)                              (* None = the check passes *)
-| OReset (a : alloc_id).                                    (* current malloc allocator after set_not_out_of_memory *)
+| OReset (a : alloc_id)                                     (* current malloc allocator after set_not_out_of_memory *)
+| OFree (failure given : bool)                              (* cpputest_free: a failure was reported / the block reached the allocator that handed it out *)
+| ORealloc (r : ares) (failure intact : bool)               (* cpputest_realloc: result, failure reported, the bytes of the (old or moved) block are as written *)
+| ODup (r : ares) (src_intact : bool)                       (* strdup / strndup of the string held by a tracked block *)
+| OEnd (tracked : Z) (clean : bool).                        (* blocks the detector still tracks; everything handed out came back once they are released *)
+
+Definition ares_eqb (a b : ares) : bool :=
+  match a, b with ROk, ROk | RNull, RNull | RBadAlloc, RBadAlloc | RCrash, RCrash => true | _, _ => false end.
+Definition alloc_id_eqb (a b : alloc_id) : bool :=
+  match a, b with ADefault, ADefault | ACustom, ACustom | ANull, ANull | AFailable, AFailable => true | _, _ => false end.
 
 Inductive cfam := CMalloc | CCalloc | CStrdup | CStrndup.
 Inductive cop :=
@@ -37,9 +48,20 @@ Inductive cop :=
 | CCountdown (n : Z)               (* cpputest_malloc_set_out_of_memory_countdown(n) *)
 | CAlloc (f : cfam).               (* cpputest_malloc / calloc / strdup / strndup *)
 
+(* releases and reallocs interleaved with the injected failures: blocks live in slots numbered in the order of the requests *)
+Inductive rop :=
+| RSetOOM | RSetNot | RCountdown (n : Z)
+| RAlloc (f : cfam)                (* cpputest_malloc / calloc / strdup / strndup; the result (block or NULL) takes the next slot *)
+| RDup (f : cfam) (i : nat)        (* cpputest_strdup / strndup of the string held by the block in slot i; result in the next slot *)
+| RFree (i : nat)                  (* cpputest_free(slot i) *)
+| RRealloc (i : nat) (sz : N)      (* slot i = cpputest_realloc(slot i, sz), the slot keeps its block when NULL comes back *)
+| RFailG (n : Z)                   (* failAllocNumber(n) on the FailableMemoryAllocator that is the test's malloc allocator *)
+| RClearF.                         (* its clearFailedAllocs() *)
+
 Inductive scenario :=
 | SFail (ops : list op)
-| SCount (custom : bool) (cops : list cop).   (* custom: a test-installed malloc allocator is current at the start *)
+| SCount (custom : bool) (cops : list cop)    (* custom: a test-installed malloc allocator is current at the start *)
+| SRel (backing : alloc_id) (rops : list rop). (* backing: the malloc allocator that is current at the start (default, the test's, a failable one) *)
 
 (* ------------------------------------------------------------------ model: FailableMemoryAllocator *)
 Record node := { n_num : Z; n_act : Z; n_loc : option loc }.    (* allocNumberToFail_, actualAllocNumber_, file_/line_ *)
@@ -174,10 +196,131 @@ Fixpoint crun_from (s : cst) (ops : list cop) : list oitem :=
 Definition cst0 (custom : bool) : cst :=
   {| c_counter := -1; c_orig := None; c_cur := Some (if custom then ACustom else ADefault) |}.
 
+
+(* ------------------------------------------------------------------ model: releases and reallocs while failures are injected *)
+(* The saved allocator (originalAllocator, c_orig), the allocator the stand-in was told it stands for
+   (OutOfMemoryAllocator::realAllocator_, r_for) and the current one (c_cur; ANull = the stand-in) are three variables, as
+   in TestHarness_c.cpp.  Every tracked block remembers the allocator that was current when it was handed out. *)
+Inductive slot := SNull | SLive (a : alloc_id) | SFreed.
+Record rst := { r_c : cst; r_for : option alloc_id; r_f : st; r_slots : list slot; r_lost : bool }.
+Definition with_c (r : rst) (c : cst) : rst :=
+  {| r_c := c; r_for := r_for r; r_f := r_f r; r_slots := r_slots r; r_lost := r_lost r |}.
+Definition with_f (r : rst) (f : st) : rst :=
+  {| r_c := r_c r; r_for := r_for r; r_f := f; r_slots := r_slots r; r_lost := r_lost r |}.
+Definition with_slots (r : rst) (l : list slot) : rst :=
+  {| r_c := r_c r; r_for := r_for r; r_f := r_f r; r_slots := l; r_lost := r_lost r |}.
+Definition with_lost (r : rst) (b : bool) : rst :=
+  {| r_c := r_c r; r_for := r_for r; r_f := r_f r; r_slots := r_slots r; r_lost := b |}.
+
+(* cpputest_malloc_set_out_of_memory: save the current allocator once, tell the stand-in whom it stands for, install it *)
+Definition r_set_oom (r : rst) : rst :=
+  let c' := c_set_oom (r_c r) in
+  {| r_c := c'; r_for := c_orig c'; r_f := r_f r; r_slots := r_slots r; r_lost := r_lost r |}.
+Definition r_set_not (r : rst) : rst := with_c r (c_set_not (r_c r)).
+Definition r_countdown_arm (r : rst) (n : Z) : rst :=
+  let r1 := with_c r {| c_counter := n; c_orig := c_orig (r_c r); c_cur := c_cur (r_c r) |} in
+  if n =? 0 then r_set_oom r1 else r1.
+(* static void countdown() *)
+Definition r_tick (r : rst) : rst :=
+  let c := r_c r in
+  if c_counter c <=? -1 then r
+  else if c_counter c =? 0 then r
+  else let r1 := with_c r {| c_counter := c_counter c - 1; c_orig := c_orig c; c_cur := c_cur c |} in
+       if c_counter (r_c r1) =? 0 then r_set_oom r1 else r1.
+
+(* the allocator an allocator stands for: its actualAllocator() and the receiver of its free_memory / freeMemoryLeakNode.
+   OutOfMemoryAllocator forwards to realAllocator_ (never unset when it is current; ANull is the total function's default),
+   every other allocator is itself *)
+Definition resolve (r : rst) (a : alloc_id) : alloc_id :=
+  match a with ANull => match r_for r with Some x => x | None => ANull end | _ => a end.
+(* before 4104eb1 NullUnknownAllocator itself was installed: its own actual allocator, and its free_memory does nothing *)
+Definition resolve_old (r : rst) (a : alloc_id) : alloc_id := a.
+
+Fixpoint set_slot (l : list slot) (i : nat) (s : slot) : list slot :=
+  match l, i with
+  | [], _ => []
+  | _ :: t, O => s :: t
+  | x :: t, S j => x :: set_slot t j s
+  end.
+Fixpoint count_live (l : list slot) : Z :=
+  match l with [] => 0 | SLive _ :: t => 1 + count_live t | _ :: t => count_live t end.
+
+(* one request reaching alloc_memory of the current malloc allocator: refused by the stand-in, shown to the pending
+   failures of a FailableMemoryAllocator (at <unknown>:0 ... the walk above), granted by anything else.  The record of the
+   block comes from allocMemoryLeakNode: the same refusal from the stand-in, never a pending failure *)
+Definition r_request (r : rst) : rst * bool :=
+  match get_cur (r_c r) with
+  | ANull => (r, true)
+  | AFailable =>
+      let g := s_cur (r_f r) + 1 in
+      let (ns, failed) := walk g unknown_loc false (s_nodes (r_f r)) in
+      (with_f r {| s_nodes := ns; s_cur := g |}, failed)
+  | _ => (r, false)
+  end.
+(* cpputest_malloc_location: countdown(), then the request; calloc / strdup / strndup are built on it *)
+Definition r_alloc (r : rst) : rst * ares :=
+  let r1 := r_tick r in
+  let cur := get_cur (r_c r1) in
+  let (r2, failed) := r_request r1 in
+  (with_slots r2 (r_slots r2 ++ [if failed then SNull else SLive cur]), if failed then RNull else ROk).
+
+(* MemoryLeakDetector::deallocMemory with the current malloc allocator: checkForCorruption compares the actual allocators
+   (different allocators here have different names), then the current allocator's free_memory gets the block *)
+Definition r_free (rs : rst -> alloc_id -> alloc_id) (r : rst) (i : nat) : rst * oitem :=
+  match nth_error (r_slots r) i with
+  | Some (SLive a) =>
+      let cur := get_cur (r_c r) in
+      let mismatch := negb (alloc_id_eqb (rs r a) (rs r cur)) in
+      let given := alloc_id_eqb (rs r cur) a in
+      (with_lost (with_slots r (set_slot (r_slots r) i SFreed)) (r_lost r || negb given), OFree mismatch given)
+  | _ => (r, OFree false false)                         (* free(NULL): nothing happens *)
+  end.
+(* MemoryLeakDetector::reallocMemory: the same comparison, then the record for the new block is asked from the current
+   allocator; refused -> NULL and the old record is put back; granted -> PlatformSpecificRealloc, recorded under the current one *)
+Definition r_realloc (rs : rst -> alloc_id -> alloc_id) (r : rst) (i : nat) : rst * oitem :=
+  let cur := get_cur (r_c r) in
+  match nth_error (r_slots r) i with
+  | Some (SLive a) =>
+      let mismatch := negb (alloc_id_eqb (rs r a) (rs r cur)) in
+      if is_null cur then (r, ORealloc RNull mismatch true)
+      else (with_slots r (set_slot (r_slots r) i (SLive cur)), ORealloc ROk mismatch true)
+  | Some SNull =>                                       (* realloc(NULL, n) *)
+      if is_null cur then (r, ORealloc RNull false true)
+      else (with_slots r (set_slot (r_slots r) i (SLive cur)), ORealloc ROk false true)
+  | _ => (r, ORealloc RNull false false)                (* a released block / no such slot: outside the precondition *)
+  end.
+
+Definition rstep_gen (rs : rst -> alloc_id -> alloc_id) (r : rst) (o : rop) : rst * option oitem :=
+  match o with
+  | RSetOOM => (r_set_oom r, None)
+  | RSetNot => let r' := r_set_not r in (r', Some (OReset (get_cur (r_c r'))))
+  | RCountdown n => (r_countdown_arm r n, None)
+  | RAlloc _ => let (r', res) := r_alloc r in (r', Some (OAlloc res))
+  | RDup _ _ => let (r', res) := r_alloc r in (r', Some (ODup res true))
+  | RFree i => let (r', it) := r_free rs r i in (r', Some it)
+  | RRealloc i _ => let (r', it) := r_realloc rs r i in (r', Some it)
+  | RFailG n => (with_f r {| s_nodes := new_node n None :: s_nodes (r_f r); s_cur := s_cur (r_f r) |}, None)
+  | RClearF => (with_f r st0, None)
+  end.
+Fixpoint rrun_gen (rs : rst -> alloc_id -> alloc_id) (r : rst) (ops : list rop) : list oitem :=
+  match ops with
+  | [] => [OEnd (count_live (r_slots r)) (negb (r_lost r))]
+  | o :: t => let (r', it) := rstep_gen rs r o in
+              match it with Some i => i :: rrun_gen rs r' t | None => rrun_gen rs r' t end
+  end.
+Fixpoint rmrun_gen (rs : rst -> alloc_id -> alloc_id) (r : rst) (ops : list rop) : rst :=
+  match ops with [] => r | o :: t => rmrun_gen rs (fst (rstep_gen rs r o)) t end.
+Definition rstep := rstep_gen resolve.
+Definition rrun_from := rrun_gen resolve.
+Definition rmrun := rmrun_gen resolve.
+Definition rst0 (b : alloc_id) : rst :=
+  {| r_c := {| c_counter := -1; c_orig := None; c_cur := Some b |}; r_for := None; r_f := st0; r_slots := []; r_lost := false |}.
+
 Definition run (s : scenario) : list oitem :=
   match s with
   | SFail ops => run_from st0 ops
   | SCount custom cops => crun_from (cst0 custom) cops
+  | SRel b rops => rrun_from (rst0 b) rops
   end.
 
 (* ------------------------------------------------------------------ spec (model-free): designated allocations by counting *)
@@ -221,10 +364,6 @@ Definition rep_matches (d : desig) (r : report) : bool :=
   | _, _ => false
   end.
 Definition fail_res (f : family) : ares := match f with FNew | FNewArr => RBadAlloc | _ => RNull end.
-Definition ares_eqb (a b : ares) : bool :=
-  match a, b with ROk, ROk | RNull, RNull | RBadAlloc, RBadAlloc | RCrash, RCrash => true | _, _ => false end.
-Definition alloc_id_eqb (a b : alloc_id) : bool :=
-  match a, b with ADefault, ADefault | ACustom, ACustom | ANull, ANull => true | _, _ => false end.
 
 Definition produces (o : op) : bool := match o with Alloc _ _ | Check => true | _ => false end.
 Definition item_ok (ins : list entry) (o : op) (pos : nat) (it : oitem) : bool :=
@@ -248,7 +387,6 @@ Fixpoint check (g : Z) (ins : list entry) (ops : list op) (pos : nat) (obs : lis
   end.
 
 (* precondition: no allocation is denoted by two designations; un-located operator new reports <unknown>:0 *)
-Definition unknown_loc : loc := ([60; 117; 110; 107; 110; 111; 119; 110; 62]%N, 0%N).
 Definition fam_loc_ok (f : family) (l : loc) : bool :=
   match f with FNewNT | FNewArrNT => loc_eqb l unknown_loc | _ => true end.
 Definition step_valid (ins : list entry) (o : op) (pos : nat) : bool :=
@@ -298,15 +436,102 @@ Fixpoint cvalid (custom : bool) (arm : option arming) (k : Z) (ops : list cop) :
   | CAlloc _ :: r => cvalid custom arm (k + 1) r
   end.
 
+
+(* ------------------------------------------------------------------ spec: releases and reallocs (model-free, by counting) *)
+(* what the property fixes, told from the scenario alone: which requests are refused (closed form of the arming, the
+   global index among the requests that reach a failable allocator), that no release and no realloc raises a failure,
+   that a released block reaches the allocator it came from, that realloc returns NULL exactly while out-of-memory is
+   simulated and then keeps the block valid and tracked, and that a reset brings back the allocator of the start *)
+Inductive sslot := QNull | QLive | QFreed.
+Record qst := { q_arm : option arming; q_k : Z; q_g : Z; q_D : list Z; q_slots : list sslot }.
+Definition qst0 : qst := {| q_arm := None; q_k := 0; q_g := 0; q_D := []; q_slots := [] |}.
+Definition is_failable (a : alloc_id) : bool := match a with AFailable => true | _ => false end.
+Definition is_default (a : alloc_id) : bool := match a with ADefault => true | _ => false end.
+Definition q_oom_next (s : qst) : bool := oom_at (q_arm s) (q_k s + 1).      (* the next request finds out-of-memory *)
+Definition q_oom_now (s : qst) : bool := oom_at (q_arm s) (q_k s).           (* out-of-memory is being simulated now *)
+Definition q_fails (b : alloc_id) (s : qst) : bool :=
+  q_oom_next s || (is_failable b && existsb (Z.eqb (q_g s + 1)) (q_D s)).
+Definition q_get (s : qst) (i : nat) : sslot := nth i (q_slots s) QFreed.
+Fixpoint q_set (l : list sslot) (i : nat) (x : sslot) : list sslot :=
+  match l, i with
+  | [], _ => []
+  | _ :: t, O => x :: t
+  | y :: t, S j => y :: q_set t j x
+  end.
+Fixpoint q_count (l : list sslot) : Z :=
+  match l with [] => 0 | QLive :: t => 1 + q_count t | _ :: t => q_count t end.
+Definition q_is_live (x : sslot) : bool := match x with QLive => true | _ => false end.
+Definition q_is_freed (x : sslot) : bool := match x with QFreed => true | _ => false end.
+Definition with_q (s : qst) (l : list sslot) : qst :=
+  {| q_arm := q_arm s; q_k := q_k s; q_g := q_g s; q_D := q_D s; q_slots := l |}.
+Definition q_request (b : alloc_id) (s : qst) : qst :=
+  {| q_arm := q_arm s; q_k := q_k s + 1; q_g := if q_oom_next s then q_g s else q_g s + 1; q_D := q_D s;
+     q_slots := q_slots s ++ [if q_fails b s then QNull else QLive] |}.
+Definition qstep (b : alloc_id) (s : qst) (o : rop) : qst :=
+  match o with
+  | RSetOOM => {| q_arm := Some ArmOOM; q_k := 0; q_g := q_g s; q_D := q_D s; q_slots := q_slots s |}
+  | RCountdown n => {| q_arm := Some (ArmCount n); q_k := 0; q_g := q_g s; q_D := q_D s; q_slots := q_slots s |}
+  | RSetNot => {| q_arm := None; q_k := 0; q_g := q_g s; q_D := q_D s; q_slots := q_slots s |}
+  | RAlloc _ | RDup _ _ => q_request b s
+  | RFree i => if q_is_live (q_get s i) then with_q s (q_set (q_slots s) i QFreed) else s
+  | RRealloc i _ => if q_oom_now s then s else with_q s (q_set (q_slots s) i QLive)
+  | RFailG n => {| q_arm := q_arm s; q_k := q_k s; q_g := q_g s; q_D := n :: q_D s; q_slots := q_slots s |}
+  | RClearF => {| q_arm := q_arm s; q_k := q_k s; q_g := 0; q_D := []; q_slots := q_slots s |}
+  end.
+Definition is_dup (f : cfam) : bool := match f with CStrdup | CStrndup => true | _ => false end.
+(* documented usage: a countdown is armed from a not-out-of-memory state (set_out_of_memory may come at any time); a reset
+   before out-of-memory was reached restores nothing unless the default allocator was current; blocks are released once *)
+Definition rop_valid (b : alloc_id) (s : qst) (o : rop) : bool :=
+  match o with
+  | RSetOOM | RAlloc _ => true
+  | RCountdown _ => match q_arm s with None => true | Some _ => false end
+  | RSetNot => is_default b || q_oom_now s
+  | RDup f i => is_dup f && q_is_live (q_get s i)
+  | RFree i | RRealloc i _ => negb (q_is_freed (q_get s i))
+  | RFailG _ | RClearF => is_failable b
+  end.
+Definition rproduces (o : rop) : bool :=
+  match o with RSetOOM | RCountdown _ | RFailG _ | RClearF => false | _ => true end.
+Definition bool_eqb (a b : bool) : bool := if a then b else negb b.
+Definition ritem_ok (b : alloc_id) (s : qst) (o : rop) (it : oitem) : bool :=
+  match o, it with
+  | RSetNot, OReset a => alloc_id_eqb a b
+  | RAlloc _, OAlloc res => ares_eqb res (if q_fails b s then RNull else ROk)
+  | RDup _ _, ODup res intact => ares_eqb res (if q_fails b s then RNull else ROk) && intact
+  | RFree i, OFree failure given => negb failure && bool_eqb given (q_is_live (q_get s i))
+  | RRealloc _ _, ORealloc res failure intact => ares_eqb res (if q_oom_now s then RNull else ROk) && negb failure && intact
+  | _, _ => false
+  end.
+Fixpoint rcheck (b : alloc_id) (s : qst) (ops : list rop) (obs : list oitem) : bool :=
+  match ops with
+  | [] => match obs with [OEnd tracked clean] => (tracked =? q_count (q_slots s)) && clean | _ => false end
+  | o :: r =>
+      if rproduces o then
+        match obs with
+        | it :: obs' => ritem_ok b s o it && rcheck b (qstep b s o) r obs'
+        | [] => false
+        end
+      else rcheck b (qstep b s o) r obs
+  end.
+Fixpoint rvalid_from (b : alloc_id) (s : qst) (ops : list rop) : bool :=
+  match ops with
+  | [] => true
+  | o :: r => rop_valid b s o && rvalid_from b (qstep b s o) r
+  end.
+Fixpoint qrun (b : alloc_id) (s : qst) (ops : list rop) : qst :=
+  match ops with [] => s | o :: r => qrun b (qstep b s o) r end.
+
 Definition spec (s : scenario) (obs : list oitem) : bool :=
   match s with
   | SFail ops => check 0 [] ops 0 obs
   | SCount custom cops => ccheck custom None 0 cops obs
+  | SRel b rops => rcheck b qst0 rops obs
   end.
 Definition valid (s : scenario) : bool :=
   match s with
   | SFail ops => valid_from 0 [] ops 0
   | SCount custom cops => cvalid custom None 0 cops
+  | SRel b rops => negb (is_null b) && rvalid_from b qst0 rops
   end.
 
 (* ------------------------------------------------------------------ projections used by the Prop-level theorems *)
@@ -348,4 +573,5 @@ Definition run_old (s : scenario) : list oitem :=
   match s with
   | SFail ops => run_from_old st0 ops
   | SCount custom cops => crun_from (cst0 custom) cops
+  | SRel b rops => rrun_gen resolve_old (rst0 b) rops
   end.
